@@ -26,7 +26,8 @@ def classify_crash(cr):
     if kind == 'hang':
         return (comp, 'hang')
     where = ''
-    for fn, tag in (('updateSubOptimalPaths', 'updateSubOptimalPaths'), ('deltaPrune', 'deltaPrune'), ('sawtoothInterpolation', 'sawtoothInterpolation'), ('LPInterpolation', 'LPInterpolation'),
+    for fn, tag in (('BlindStrategies::operator()<GModel>', 'BlindStrategies_elementwise_model'),
+                    ('updateSubOptimalPaths', 'updateSubOptimalPaths'), ('deltaPrune', 'deltaPrune'), ('sawtoothInterpolation', 'sawtoothInterpolation'), ('LPInterpolation', 'LPInterpolation'),
                     ('cleanUp', 'cleanUp'), ('makeNewPomdp', 'makeNewPomdp'), ('selectReachableBeliefs', 'selectReachableBeliefs'),
                     ('backupNode', 'backupNode'), ('samplePoints', 'samplePoints'), ('expandLeaf', 'expandLeaf'),
                     ('SARSOP::operator()', 'main_loop'), ('GapMin::operator()', 'main_loop')):
@@ -38,6 +39,8 @@ def classify_crash(cr):
         what = 'memory_error'            # one defect shows up under several sanitizer names (heap-buffer-overflow, use-after-free, null reference)
     elif 'Assertion' in err:
         what = 'assertion'
+    if where == 'BlindStrategies_elementwise_model':
+        comp = 'BlindStrategies'
     return (comp, what + ('_in_' + where if where else ''))
 
 
@@ -88,6 +91,11 @@ SPEC = {
     ],
     'gen_obligations': ['AITB.POMDP3.src_blind_start_is_min', 'AITB.POMDP3.src_fib_start_is_max', 'AITB.POMDP3.src_fib_inner_is_max', 'AITB.POMDP3.src_cons_no_skip', 'AITB.POMDP3.src_saw_is_repaired'],
     'harness': 'harness/c03.cpp',
+    # the solvers are declared for every `IsModel`; a user-defined model without the Eigen interface is inside the quantifier
+    'compile_probes': [{'src': 'harness/c03_probe_elementwise_fib.cpp', 'define': 'AITB_C03_ELEMENTWISE_FIB',
+                        'component': 'FastInformedBound', 'kind': 'elementwise_model_does_not_compile'},
+                       {'src': 'harness/c03_probe_elementwise_anytime.cpp', 'define': 'AITB_C03_ELEMENTWISE_ANYTIME',
+                        'component': 'SARSOP_GapMin', 'kind': 'elementwise_model_does_not_compile'}],
     'level': 'proof',
     'timeout': {'quick': 900, 'thorough': 1800},
     'case_timeout': 240,
